@@ -47,6 +47,13 @@ def _run_child(prop, task, wfd, tier, wall):
     code = 3
     try:
         os.setpgid(0, 0)
+        # The cyclic GC decides when abandoned generators run their finally blocks and when
+        # forgotten files are closed; its trigger points depend on allocation counts inherited
+        # from the zygote.  The simulator owns that choice: automatic collection is off, the
+        # harness collects at defined points (end of every flow run / sub-run).
+        import gc
+        gc.collect()
+        gc.disable()
         signal.signal(signal.SIGALRM, signal.SIG_DFL)
         signal.alarm(wall)
         devnull = os.open(os.devnull, os.O_WRONLY)
